@@ -489,6 +489,72 @@ def run_hp_copy(ctx):
     return {"hp_copy_cases": len(cases), "hp_copy_use_after_dispose": hits}
 
 
+# --------------------------------------------------------------------------------------------------
+# IterableList::link_data: the "ABA check for a null prev" (find_prev) walks nodes that are not frozen, so a node
+# it has already passed can be re-used for a key >= val; the insert then stores its item behind a larger key.
+ITER_ABA_SIG = "iterlist-null-prev-aba-find-prev-stale"
+ITER_ABA_WHAT = ("cds::intrusive::IterableList::link_data re-uses an empty pPrev after find_prev( pHead, val ) == pPrev, but find_prev walks nodes "
+                 "that are not frozen: a node it has passed is re-used by another insert for a larger key; the list ends out of order "
+                 "(12, 10, 20), contains( 10 ) returns false after insert( 10 ) returned true and a second insert( 10 ) succeeds (key present twice)")
+
+
+def iter_aba_eval(ctx, exes, variants, lin, shard_of, cases, tag):
+    """run the cases on the real list; -> list of (case, analysis) that violate the property"""
+    by = collections.defaultdict(list)
+    for c in cases:
+        if c["cfg"][0] in shard_of:
+            by[shard_of[c["cfg"][0]]].append(c)
+    hits = []
+    for s, cs in sorted(by.items()):
+        rc, logs, raw = run_shard(ctx, exes[s], cs, "%s_s%d" % (tag, s))
+        an = []
+        for c in cs:
+            lg = logs.get(c["id"])
+            an.append(analyse_case(c, lg) if lg is not None and lg["end"] in ("finished", "fuel") else None)
+        idx = [i for i, a in enumerate(an) if a is not None]
+        verdicts = lincheck_batch(ctx, lin, "set", [an[i]["lines"] for i in idx], "%s_s%d" % (tag, s))
+        for i, v in zip(idx, verdicts):
+            an[i]["verdict"] = v
+            if v != "OK" or an[i]["problems"]:
+                hits.append((cs[i], an[i]))
+    return hits
+
+
+def run_iter_aba(ctx, exes, variants, lin, shard_of, model=None):
+    f = os.path.join(vcheck.VERIF, "corpus", "C13", "iter_null_prev_aba.json")
+    if not os.path.exists(f):
+        return {"iter_aba_cases": 0, "iter_aba_hits": 0}
+    c0 = json.load(open(f))
+    base = {k: c0[k] for k in ("id", "cfg", "threads", "sched")}
+    cases = [base]
+    # the same scenario with the two switch points of the inserting thread moved around, item counter off / on
+    for vid in (40, 43):
+        for n0 in range(29, 37):
+            for n1 in range(9, 19):
+                cases.append({"id": "iaba_%d_%d_%d" % (vid, n0, n1), "cfg": [vid, 0, 20000], "threads": base["threads"],
+                              "sched": [0] * 162 + [1] * n0 + [2] * 140 + [1] * n1 + [3] * 53 + [1] * 22})
+    hits = iter_aba_eval(ctx, exes, variants, lin, shard_of, cases, "iter_aba")
+    rep = [h for h in hits if h[0]["id"] == base["id"]] or hits
+    for c, a in rep[:1]:
+        ctx.violation(ITER_ABA_WHAT, {"case": dict(c, kind="iter_aba"), "variant": variants.get(c["cfg"][0]), "history": a["lines"],
+                                      "problems": a["problems"], "verdict": a.get("verdict"), "final_keys": a["keys"]}, signature=ITER_ABA_SIG)
+    info = {"iter_aba_cases": len(cases), "iter_aba_hits": len(hits),
+            "iter_aba_final_keys": sorted(set(tuple(a["keys"]) for c, a in hits if a["keys"]))[:6]}
+    # the corpus execution, access by access, in the step model (the run of the Coq refutation theorem) and in the real code
+    if model is not None:
+        spec = [s for s in STEP_MODELS if s["name"] == "iterable"][0]
+        sc = [dict(base, id="iaba_step", cfg=[40, 1, 20000])]
+        _, mlog, rc2, ilog, raw = exec_step(ctx, exes, dict(spec, name="iterable_aba"), model, sc)
+        m = mlog.get("iaba_step"); i = ilog.get("iaba_step")
+        d = "no output" if m is None or i is None else conc_check.compare(m, strip_sp(i))
+        info["iter_aba_step_model_agrees"] = d is None
+        info["iter_aba_step_accesses"] = 0 if i is None else len(strip_sp(i)["lines"])
+        if d is not None:
+            ctx.violation("step correspondence between LV.Model.IterList and the real IterableList breaks on the null-prev ABA corpus case",
+                          {"case": sc[0], "first_divergence": d}, no_input=True)
+    return info
+
+
 def run(ctx):
     exes = build_shards(ctx, SHARDS)
     variants = {}; shard_of = {}
@@ -509,6 +575,12 @@ def run(ctx):
             lg = logs.get(c["id"], {"extra": [], "lines": []})
             if any("uaf" in x.split() and int(x.split()[x.split().index("uaf") + 1]) > 0 for x in lg["extra"] if x.startswith("mon")):
                 ctx.violation("cds::gc::HP::scan misses the hazard pointer that MichaelList<HP>::search copies from guard slot 1 to slot 0", {"case": c, "impl_log": lg["lines"], "monitor": lg["extra"]}, signature=HP_COPY_SIG)
+            ctx.coverage.update({"obligations": 1, "discharged": 1, "checker_cmd": "replay", "evaluations": 1, "distinct_nontrivial": 0, "rule": "replay of one case", "samples": [c]})
+            return ctx.finish(vcheck.STD_TRUSTED)
+        if c.get("kind") == "iter_aba":
+            for cc, a in iter_aba_eval(ctx, exes, variants, lin, shard_of, [{k: c[k] for k in ("id", "cfg", "threads", "sched")}], "replay_iaba"):
+                ctx.violation(ITER_ABA_WHAT, {"case": c, "variant": variants.get(c["cfg"][0]), "history": a["lines"], "problems": a["problems"],
+                                              "verdict": a.get("verdict"), "final_keys": a["keys"]}, signature=ITER_ABA_SIG)
             ctx.coverage.update({"obligations": 1, "discharged": 1, "checker_cmd": "replay", "evaluations": 1, "distinct_nontrivial": 0, "rule": "replay of one case", "samples": [c]})
             return ctx.finish(vcheck.STD_TRUSTED)
         vid = c["cfg"][0]
@@ -533,7 +605,7 @@ def run(ctx):
         if f.endswith(".json"):
             c = json.load(open(os.path.join(cdir, f)))
             c = c.get("case", c)
-            if c.get("kind") == "hp_copy":
+            if c.get("kind") in ("hp_copy", "iter_aba"):
                 continue
             if c["cfg"][0] in shard_of:
                 corpus.append(c); by_shard[shard_of[c["cfg"][0]]].append(c)
@@ -549,6 +621,7 @@ def run(ctx):
     for spec in STEP_MODELS:        # models and cases first (one random stream), then all executions in parallel
         model = conc_check.build_model(ctx, spec["extract"], tag="model_" + spec["name"])
         cases = [c for c in corpus if c["cfg"][0] in spec["variants"] and c["cfg"][1] == 1] + gen_step_cases(ctx, ctx.rng.fork(), nstep, "s" + spec["name"], spec["variants"])
+        spec["_model"] = model
         prepared.append((spec, model, cases))
     with concurrent.futures.ThreadPoolExecutor(max_workers=len(prepared)) as ex:
         futs = [ex.submit(exec_step, ctx, exes, sp, mo, cs) for sp, mo, cs in prepared]
@@ -580,15 +653,18 @@ def run(ctx):
         "op_result_histogram": dict(tot_ops),
         "histories_decided_by_verified_lincheck": sum(sum(s["verdicts"].values()) for s in stats.values()),
         "samples": [by_shard[shard_of[min(variants)]][0]] if variants else [],
-        "modelled": "cds::intrusive::MichaelList<cds::gc::HP> (search with helping, link_node, unlink_node, insert_at, update_at, erase_at, unlink_at, extract_at, find_at, get_at, HP guard traffic) [theorems]; cds::intrusive::LazyList<cds::gc::HP> (search, node spin locks, validate, link_node, unlink_node, all *_at) and cds::intrusive::IterableList<cds::gc::HP> (search, inserting_search, find_prev, link_data, unlink_data, all *_at) [step models tied by correspondence, no theorems yet]",
+        "modelled": "cds::intrusive::MichaelList<cds::gc::HP> (search with helping, link_node, unlink_node, insert_at, update_at, erase_at, unlink_at, extract_at, find_at, get_at, HP guard traffic) [theorems]; cds::intrusive::LazyList<cds::gc::HP> (search, node spin locks, validate, link_node, unlink_node, all *_at) [theorems] and cds::intrusive::IterableList<cds::gc::HP> (search, inserting_search, find_prev, link_data, unlink_data, all *_at) [LazyList: theorems lazy_sorted_nodup, lazy_updates_linearizable_partial; IterableList: refutation iter_sorted_nodup_refuted]",
     })
     ctx.coverage.update(stepinfo)
     hpinfo = run_hp_copy(ctx)
     ctx.log("hp guard-copy scenario: %(hp_copy_cases)d schedules, %(hp_copy_use_after_dispose)d with a use after dispose" % hpinfo)
     ctx.coverage.update(hpinfo)
+    iainfo = run_iter_aba(ctx, exes, variants, lin, shard_of, model=[sp for sp in STEP_MODELS if sp["name"] == "iterable"][0].get("_model"))
+    ctx.log("iterable null-prev ABA scenario: %(iter_aba_cases)d schedules, %(iter_aba_hits)d end out of order / not linearizable" % iainfo)
+    ctx.coverage.update(iainfo)
     return ctx.finish(vcheck.STD_TRUSTED + ["hook layer: khizmax_libcds_verif::atomic<T>, baton scheduler, event log (hooks/include)", "ocaml/lincheck_main.ml (text parser around the verified lincheck)", "harness/C13 adapters: translation of each API call into the spec vocabulary (`sp` records)"],
                       ["sequential consistency: memory_order arguments are not modelled", "compare_exchange_weak never fails spuriously under the hook",
                        "smr_safe (DESIGN 4): the step models allocate node / item ids from never-reusing allocators; that no node is recycled while a guard can reach it is the conclusion of the C01 theorems, not of C13 (and the open known finding hp-guard-copy-downward-michael-search shows a schedule of the real cds::gc::HP in which it fails for MichaelList::search)",
-                       "theorems (sorted / no duplicate key at every step, full linearizability incl. reads, for every schedule) cover the step model of cds::intrusive::MichaelList<gc::HP>; LazyList<HP> and IterableList<HP> have step models tied by correspondence but no invariant proof (lazy_sorted_nodup_statement, iter_sorted_nodup_statement); every other variant: observable correspondence only",
+                       "theorems for every schedule: step model of cds::intrusive::MichaelList<gc::HP> (sorted / no duplicate key at every step, full linearizability incl. reads); step model of cds::intrusive::LazyList<gc::HP> (no duplicate key at every step, linearizability of the modifying operations only: failed operations and contains/find need helping and are not covered); IterableList<HP>: step model tied by correspondence, property REFUTED (C13_iter_sorted_nodup_refuted, known finding iterlist-null-prev-aba-find-prev-stale); every other variant: observable correspondence only",
                        "step and observable correspondence are sampling (every history sampled is decided exactly by the verified lincheck)",
                        "a failed unlink( val ) is not an operation of the sequential set (it fails also when the list holds another item with that key): skipped in histories, its result checked directly (an item that was never linked must not be unlinked)"])
